@@ -39,4 +39,4 @@ pub fn attr_col_rel(addr: u16) -> usize {
 
 #[cfg(kani)]
 #[path = "/verif/hooks/core/utils_screen.rs"]
-mod verif_hooks;
+pub(crate) mod verif_hooks;
